@@ -15,7 +15,7 @@ from vlib import corpus, observe, rewrite, runner
 
 ID = "C07"
 LEVEL = "exploration"
-RULE = ("case = (corpus statement in its own dialect [harvested test-suite SQL + bundled TPC-DS], set of token-level rewrites: whitespace "
+RULE = ("case = (corpus statement in its own dialect [harvested test-suite SQL + bundled TPC-DS] or generator statement [seeded stride through the C01 and C02 skeleton products under ansi, C01 dialect-specific statements in their dialect], set of token-level rewrites: whitespace "
         "replacement, comment insertion (block / line, containing ; keywords quotes), case change of an unquoted word, quoting of a lower-case "
         "naked identifier, trailing-semicolon variant). quick: 1-8 random edits per case; thorough: every single-site edit + all sites at once. "
         "Non-trivial = rewritten text differs from the original in at least one token inside the statement (not only the trailer) and "
@@ -58,8 +58,29 @@ def entries():
             tp = tp[k::10]
         for e in tp:
             out.append((e["sql"], "ansi"))
+        _state["corpus_entries"] = len(set(out))
+        out += generated_entries(bool(_state.get("quick")), _state.get("seed", 1))
         _state["entries"] = sorted(set(out))
     return _state["entries"]
+
+
+def generated_entries(quick, seed):
+    """statements of the generators (the property quantifies over 'the corpus and the generators'): a seeded stride through the C01 and
+    C02 skeleton products rendered for ansi, and the dialect-specific statements of C01 in their own dialect"""
+    from vlib import sqlir as ir
+    from vlib.props import C01, C02
+
+    out = []
+    k1, k2 = (80, 30) if quick else (4, 2)
+    for i, (stmt, feats) in enumerate(C01.skeletons((0, 1))):
+        if i % k1 == seed % k1 and not isinstance(stmt, ir.Noop):
+            out.append((ir.r_stmt(stmt), "ansi"))
+    for i, (stmt, feats) in enumerate(C02.skeletons()):
+        if i % k2 == seed % k2:
+            out.append((ir.r_stmt(stmt), "ansi"))
+    for dialect, sql, S, T, feats in C01.dialect_specific_cases():
+        out.append((sql, dialect))
+    return out
 
 
 def _prep(idx):
@@ -187,7 +208,8 @@ def run(ctx):
         order = sorted(range(len(ents)), key=lambda i: -len(ents[i][0]))
         chunks = runner.NCPU * 4
         res.merge(runner.merge_all(runner.pmap(_exhaustive_worker, [(order[c::chunks], ctx) for c in range(chunks)])))
-    res.extra["corpus_entries"] = len(ents)
+    res.extra["corpus_entries"] = _state.get("corpus_entries")
+    res.extra["entries_with_generated"] = len(ents)
     return res
 
 
